@@ -6,9 +6,10 @@ pub mod c01;
 pub mod c02;
 pub mod c05;
 pub mod c06;
+pub mod c07;
 pub mod c12;
 pub mod c16;
 
 pub fn all() -> Vec<Prop> {
-    vec![c01::prop(), c02::prop(), c05::prop(), c06::prop(), c12::prop(), c16::prop()]
+    vec![c01::prop(), c02::prop(), c05::prop(), c06::prop(), c07::prop(), c12::prop(), c16::prop()]
 }
